@@ -3,7 +3,7 @@ from __future__ import annotations
 
 import ast
 
-from .. import fx, q
+from .. import memo, fx, q
 from ..boolterm import head_name
 from ..core import AnchorError, Ctx, FuncInfo, dotted, guard_facts, norm, walk_no_nested
 from ..rewrite import single_bindings
@@ -40,6 +40,7 @@ def run(ctx: Ctx):
     check_splice(ctx, fi)
     check_resynth(ctx, fi)
     check_language(ctx)
+    memo.check_memo_keys(ctx, ("decompiler.", "compiler."))
 
 
 def check_splice(ctx: Ctx, fi: FuncInfo):
